@@ -116,8 +116,10 @@ Qed.
 Lemma sign_of_mant (s : bool) (m : positive) : ((if s then Zneg m else Zpos m) <? 0) = s.
 Proof. destruct s; reflexivity. Qed.
 
-Theorem integral_text_roundtrip s m e z : valid_binary prec emax (S754_finite s m e) = true ->
-  sf_integral (S754_finite s m e) = Some z -> py_float (Z_to_str z) = Some (S754_finite s m e).
+(* the text of an integral double: sign and the digits of |z|, denoting the double exactly *)
+Lemma integral_text_shape s m e z : valid_binary prec emax (S754_finite s m e) = true ->
+  sf_integral (S754_finite s m e) = Some z ->
+  exists ds, Z_to_str z = sgn s ++ ds /\ ds <> [] /\ all_d ds = true /\ dval ds * 2 ^ 1074 = Zpos m * 2 ^ (e + 1074).
 Proof.
   intros V H. destruct (canonical_of_valid s m e V) as (Hm & He & _). cbn [sf_integral] in H.
   assert (PU : 0 < 2 ^ (e + 1074)) by (apply pow2_pos; lia).
@@ -139,13 +141,23 @@ Proof.
   destruct X as (NZ & Sg & Eq).
   rewrite (Z_to_str_sign z NZ), Sg.
   destruct (Z_to_str_nonneg (Z.abs z) ltac:(lia)) as (ds & -> & NE & AD & DV).
+  exists ds. rewrite DV. auto.
+Qed.
+
+Theorem integral_text_roundtrip s m e z : valid_binary prec emax (S754_finite s m e) = true ->
+  sf_integral (S754_finite s m e) = Some z -> py_float (Z_to_str z) = Some (S754_finite s m e).
+Proof.
+  intros V H. destruct (integral_text_shape s m e z V H) as (ds & -> & NE & AD & Eq).
   rewrite py_float_factors. unfold float_with. rewrite (py_dec_int s ds NE AD). cbn [option_map to_flt]. f_equal.
   pose proof (dval_bounds ds AD).
   apply (dec_to_sf_exact s _ _ 0 m e V); lia.
 Qed.
 
-Theorem dyadic_text_roundtrip s m e t : valid_binary prec emax (S754_finite s m e) = true ->
-  e < 0 -> Zpos m mod 2 ^ (- e) <> 0 -> dyadic_text s m e = ARes t -> py_float t = Some (S754_finite s m e).
+(* the exact positional text: sign, integer digits, '.', fraction digits (not empty), denoting the double exactly *)
+Lemma dyadic_text_shape s m e t : valid_binary prec emax (S754_finite s m e) = true ->
+  e < 0 -> Zpos m mod 2 ^ (- e) <> 0 -> dyadic_text s m e = ARes t ->
+  exists ipd fd, t = sgn s ++ ipd ++ 46%N :: fd /\ ipd <> [] /\ all_d ipd = true /\ fd <> [] /\ all_d fd = true /\
+    (dval ipd * 10 ^ len fd + dval fd) * 2 ^ 1074 = Zpos m * 2 ^ (e + 1074) * 10 ^ len fd.
 Proof.
   intros V He Hfr. unfold dyadic_text. destruct (canonical_of_valid s m e V) as (_ & Hee & _).
   set (K := - e) in *. assert (HK : 0 < K) by (unfold K; lia).
@@ -178,14 +190,11 @@ Proof.
   match goal with |- (if ?c then _ else _) = _ -> _ => destruct c end; [discriminate|].
   intros H. injection H as <-. change (if s then [45%N] else []) with (sgn s).
   replace (match fd with [] => [] | _ :: _ => 46%N :: fd end) with (46%N :: fd) by (destruct fd; [congruence|reflexivity]).
-  rewrite py_float_factors. unfold float_with. rewrite (py_dec_pos s ipd fd NEi ADi Afd). cbn [option_map to_flt]. f_equal.
+  exists ipd, fd. split; [reflexivity|]. split; [exact NEi|]. split; [exact ADi|]. split; [exact NEf|]. split; [exact Afd|].
   set (L := len fd) in *. assert (HL : 0 <= L) by (unfold L, len; lia).
   assert (PL : 0 < 10 ^ L) by (apply pow10_pos; lia).
   assert (Pj : 0 < 10 ^ Z.of_nat j) by (apply pow10_pos; lia).
-  pose proof (dval_bounds fd Afd) as Bfd.
-  assert (Hmant : 0 <= dval ipd * 10 ^ L + dval fd) by (rewrite DVi; nia).
-  apply (dec_to_sf_exact s _ _ L m e V); try lia.
-  replace (- L + L) with 0 by lia. rewrite Z.pow_0_r, Z.mul_1_r, DVi.
+  rewrite DVi.
   assert (ET : 2 ^ 1074 = 2 ^ (e + 1074) * den).
   { unfold den, K. rewrite <- pow2_split by lia. f_equal. lia. }
   rewrite ET. set (T := 2 ^ (e + 1074)).
@@ -196,6 +205,18 @@ Proof.
     rewrite E10. replace (dval fd * den * 10 ^ Z.of_nat j) with (dval fd * 10 ^ Z.of_nat j * den) by ring. rewrite Dfd. ring. }
   rewrite DM at 1.
   replace ((ip * 10 ^ L + dval fd) * (T * den)) with (T * (ip * den * 10 ^ L + dval fd * den)) by ring. rewrite C. ring.
+Qed.
+
+Theorem dyadic_text_roundtrip s m e t : valid_binary prec emax (S754_finite s m e) = true ->
+  e < 0 -> Zpos m mod 2 ^ (- e) <> 0 -> dyadic_text s m e = ARes t -> py_float t = Some (S754_finite s m e).
+Proof.
+  intros V He Hfr H. destruct (dyadic_text_shape s m e t V He Hfr H) as (ipd & fd & -> & NEi & ADi & NEf & Afd & Eq).
+  rewrite py_float_factors. unfold float_with. rewrite (py_dec_pos s ipd fd NEi ADi Afd). cbn [option_map to_flt]. f_equal.
+  pose proof (dval_bounds ipd ADi). pose proof (dval_bounds fd Afd).
+  assert (HL : 0 <= len fd) by (unfold len; lia). assert (PL : 0 < 10 ^ len fd) by (apply pow10_pos; lia).
+  assert (Hmant : 0 <= dval ipd * 10 ^ len fd + dval fd) by nia.
+  apply (dec_to_sf_exact s _ _ (len fd) m e V); try lia.
+  replace (- len fd + len fd) with 0 by lia. rewrite Z.pow_0_r, Z.mul_1_r. exact Eq.
 Qed.
 
 Theorem num_to_str_roundtrip f t : valid_binary prec emax f = true ->
@@ -228,4 +249,44 @@ Theorem num_text_full_parse_number f t : valid_binary prec emax f = true -> NumT
   num_text_full (NFlt f) = ARes t -> value_parse_number t = Some f.
 Proof.
   intros V F H. unfold value_parse_number. rewrite (num_text_full_roundtrip f t V H). cbv beta iota. rewrite F. reflexivity.
+Qed.
+
+(* ------------------------------------------------------------------ for x >= 0 the printed text is one numeric literal *)
+Lemma is_neg_text_cons c t : is_neg_text (c :: t) = (c =? 45)%N.
+Proof. destruct c as [|p]; [reflexivity|]. do 7 (try destruct p as [p|p|]); reflexivity. Qed.
+
+Lemma ReprG_sign s neg p : ReprG s -> py_dec s = Some (neg, p) -> is_neg_text s = neg.
+Proof.
+  intros G. inversion G as [neg' I F HI DI HF DF E|neg' d F es E Hd DF Hs DE HL Eq]; subst.
+  - rewrite py_dec_pos by auto. intros H. injection H as <- _. destruct neg'; [reflexivity|].
+    destruct I as [|i I']; [congruence|]. cbn [sgn app]. rewrite is_neg_text_cons.
+    apply all_d_cons in DI. destruct DI as [Hi _]. apply is_d_range in Hi. lia.
+  - assert (HE : E <> []) by (destruct E; [cbn in HL; lia|discriminate]).
+    rewrite py_dec_exp by auto. intros H. injection H as <- _. destruct neg'; [reflexivity|].
+    cbn [sgn app]. rewrite is_neg_text_cons. apply is_d_range in Hd. lia.
+Qed.
+
+Definition sf_nonneg_finite (f : flt) : bool :=
+  match f with S754_zero false | S754_finite false _ _ => true | _ => false end.
+
+Theorem num_text_full_literal f t : valid_binary prec emax f = true -> sf_nonneg_finite f = true ->
+  num_text_full (NFlt f) = ARes t -> lit_match t = Some (O, length t).
+Proof.
+  intros V NN. destruct f as [[|]|s| |[|] m e]; try discriminate NN.
+  - intros H. vm_compute in H. injection H as <-. vm_compute. reflexivity.
+  - unfold num_text_full. destruct (num_to_str (NFlt (S754_finite false m e))) as [r| |] eqn:N.
+    + intros H. injection H as <-. cbn [num_to_str] in N.
+      destruct (sf_integral (S754_finite false m e)) as [z|] eqn:I.
+      * destruct (Z.abs z <? 10 ^ 16); [|discriminate]. injection N as <-.
+        destruct (integral_text_shape false m e z V I) as (ds & -> & NE & AD & _). cbn [sgn app]. apply lit_int; auto.
+      * cbn [sf_integral] in I. destruct (Z.leb_spec 0 e) as [L|G]; [discriminate|].
+        destruct (Z.eqb_spec (Zpos m mod 2 ^ (- e)) 0) as [M|M]; [discriminate|].
+        destruct (dyadic_text_shape false m e r V G M N) as (ipd & fd & -> & NEi & ADi & NEf & Afd & _).
+        cbn [sgn app]. apply lit_pos; auto.
+    + discriminate.
+    + destruct (repr_float (S754_finite false m e)) as [r| |] eqn:R; try discriminate.
+      intros H. injection H as <-. apply cleanup_is_literal; [exact (repr_float_in_grammar _ _ R)|].
+      cbn [repr_float] in R. destruct (short_digits m e) as [[d k]|] eqn:S; [|discriminate]. injection R as <-.
+      destruct (short_digits_sound m e d k S) as [Pd _]. destruct (repr_layout_shape false d k Pd) as [G (j & _ & P)].
+      exact (ReprG_sign _ _ _ G P).
 Qed.
